@@ -18,3 +18,14 @@ print("| variant | kind | properties |")
 print("|---|---|---|")
 for v in CATALOGUE:
     print("| %s | %s | %s |" % (v["id"], v["kind"], ", ".join(v["props"])))
+print("\n### 7.3 Behaviour-preserving refactorings written by sub-agents (kept under `refactorings/<id>/`)\n")
+print("| id | refactoring | verdict of all 17 checks |")
+print("|---|---|---|")
+for rid in sorted(os.listdir("/verif/refactorings")):
+    mp = os.path.join("/verif/refactorings", rid, "meta.json")
+    if not os.path.exists(mp):
+        continue
+    m = json.load(open(mp))
+    notes = " ".join(l.strip("#*- ").strip() for l in m.get("notes", "").splitlines() if l.strip())[:200].replace("|", "/")
+    fa, und = m.get("false_alarms", []), m.get("undecided", [])
+    print("| %s | %s | %s |" % (rid, notes, "silent" if not fa and not und else ("FALSE ALARM " + ",".join(fa) if fa else "undecided " + ",".join(und))))
